@@ -92,17 +92,18 @@ type action struct {
 }
 
 type obs struct {
-	Step    int    `json:"step"` // index in the history (0 = Init)
-	Type    string `json:"type"`
-	Burst   int    `json:"burst"`
-	Desc    string `json:"desc"` // client id / net name / ""
-	Limiter string `json:"limiter"`
-	Allowed bool   `json:"allowed"`
-	PerNs   int64  `json:"per_ns,omitempty"` // the limiter's period for `burst` tokens, as it reports it
-	Tb      int64  `json:"tb"`               // harness clock before / after the call, ns since the start of the history
-	Ta      int64  `json:"ta"`
-	Added   *bool  `json:"added,omitempty"`
-	Err     string `json:"err,omitempty"`
+	Step    int     `json:"step"` // index in the history (0 = Init)
+	Type    string  `json:"type"`
+	Burst   int     `json:"burst"`
+	Desc    string  `json:"desc"` // client id / net name / ""
+	Limiter string  `json:"limiter"`
+	Allowed bool    `json:"allowed"`
+	PerNs   int64   `json:"per_ns,omitempty"` // the limiter's period for `burst` tokens, as it reports it
+	Tb      int64   `json:"tb"`               // harness clock before / after the call, ns since the start of the history
+	Ta      int64   `json:"ta"`
+	Tokens  float64 `json:"tokens"` // RateLimiterResult.Tokens (only used to name the class of a broken bound)
+	Added   *bool   `json:"added,omitempty"`
+	Err     string  `json:"err,omitempty"`
 }
 
 type result struct {
@@ -335,7 +336,7 @@ func (w *world) play(hist []action, res *result) error {
 			}
 			res.Obs = append(res.Obs, obs{Step: i, Type: r.RulesetType, Burst: burstOf(r.Limiter), Limiter: r.Limiter,
 				Desc: descOf(r.RulesetType, r.RulesetDesc), Allowed: allowed, PerNs: int64(perOf(r.Limiter)),
-				Tb: int64(tb), Ta: int64(ta)})
+				Tb: int64(tb), Ta: int64(ta), Tokens: r.Tokens})
 		default:
 			return fmt.Errorf("unknown action %q", a.A)
 		}
@@ -501,10 +502,20 @@ func oneBurst(rng *rand.Rand, rule launch.RateLimiterRule, d time.Duration, wher
 	if where == "defaultmap" {
 		flipKind, flipOn = "clientid", false
 	}
-	needNode := where == "node" || where == "suffrage"
 	inst := map[string]int{"a1/hx": 0}
 	tick()
 	start := time.Now()
+	if where == "node" || where == "suffrage" {
+		// the node of an address is learned after its first request: a request to another handler, then AddNode,
+		// so that the limiter of a1/hx is of the type `where` from its first call on
+		if _, _, err := w.request(addrs["a1"], "hw", b.cid); err != nil {
+			return line, err
+		}
+		if !w.handler.AddNode(addrs["a1"], node("n1")) {
+			return line, fmt.Errorf("AddNode failed")
+		}
+		tick()
+	}
 	call := func(addr, hd string) (launch.RateLimiterResult, error) {
 		tb := time.Since(start)
 		r, allowed, err := w.request(addrs[addr], hd, b.cid)
@@ -562,12 +573,7 @@ func oneBurst(rng *rand.Rand, rule launch.RateLimiterRule, d time.Duration, wher
 		if err != nil {
 			return line, err
 		}
-		if c == 0 && needNode {
-			if !w.handler.AddNode(addrs["a1"], node("n1")) {
-				return line, fmt.Errorf("AddNode failed")
-			}
-		}
-		if (c == 1 && needNode || c == 0 && !needNode) && r.RulesetType != where && !(where == "defaultmap" && r.RulesetType == "default") {
+		if c == 0 && r.RulesetType != where {
 			return line, fmt.Errorf("burst under the %s rule set: limiter of type %q", where, r.RulesetType)
 		}
 		if time.Since(start) > span && c >= 12 { // at least a dozen calls, however slow the machine is
@@ -595,7 +601,7 @@ func bursts(n int, out *h.Out) error {
 	specs := []spec{{1, 10 * time.Millisecond}, {5, 50 * time.Millisecond}, {20, 100 * time.Millisecond}, {3, time.Second},
 		{2, 3 * time.Millisecond}, {40, 20 * time.Millisecond}, {7, 70 * time.Millisecond}, {33, 3 * time.Second}}
 	// (rule set, perturbation): the first ones are run by the quick tier
-	combos := [][2]string{{"suffrage", "hash"}, {"defaultmap", "none"}, {"clientid", "equal-sets"}, {"net", "type-flip"},
+	combos := [][2]string{{"defaultmap", "none"}, {"suffrage", "hash"}, {"clientid", "equal-sets"}, {"net", "type-flip"},
 		{"node", "equal-sets"}, {"suffrage", "type-flip"}, {"clientid", "type-flip"}, {"net", "other-traffic"},
 		{"node", "type-flip"}, {"suffrage", "equal-sets"}, {"defaultmap", "type-flip"}, {"clientid", "none"},
 		{"suffrage", "other-traffic"}, {"net", "equal-sets"}, {"node", "hash"}, {"defaultmap", "equal-sets"},
